@@ -4,4 +4,6 @@ cd /verif; TIER=${1:-quick}; shift; IDS="$@"; [ -z "$IDS" ] && IDS="C01 C02 C03 
 mkdir -p /tmp/runs
 run1() { t0=$(date +%s); timeout 14000 ./check $1 --tier $TIER ${CHECK_ARGS:-} > /tmp/runs/all-$1-$TIER.log 2>&1; rc=$?; echo "$1 rc=$rc wall=$(( $(date +%s)-t0 ))s $(tail -1 /tmp/runs/all-$1-$TIER.log | cut -c1-150)"; }
 export -f run1; export TIER
+# two checks run side by side: each gets half of the solver memory budget
+export VERIF_MEM_BUDGET_GB=${VERIF_MEM_BUDGET_GB:-24}
 echo $IDS | tr ' ' '\n' | xargs -P 2 -I{} bash -c 'run1 {}'
